@@ -109,7 +109,7 @@ def run(ctx):
     rep.guarded("str-slice", "untrusted str slicing", lambda: rule_str_slice(facts, rep))
     rep.guarded("utf8", "from_utf8_unchecked", lambda: rule_utf8(facts, rep))
     rep.guarded("positive", "verif_harness::positive", lambda: rule_positive(facts, rep))
-    for r, n in (("panic-site", 120), ("coverage", 60), ("allowlist", 1), ("reset", 9), ("guards", 12), ("params", 8), ("invariants", 6), ("unsafe", 8), ("str-slice", 3), ("utf8", 5), ("positive", 3)):
+    for r, n in (("panic-site", 120), ("coverage", 60), ("allowlist", 1), ("reset", 9), ("guards", 12), ("params", 8), ("invariants", 6), ("unsafe", 8), ("utf8", 5), ("positive", 3)):
         rep.floor(r, n)
 
 
@@ -733,6 +733,9 @@ def rule_str_slice(facts, rep):
                               "byte-offset slicing of a str derived from caller input must be dominated by an ASCII / char-boundary test "
                               "(a multi-byte character at the offset panics)", loc(b, n))
     rep.count(n_sites)
+    # (no floor on the number of sites: code that stops slicing strings has fewer; that the matcher still recognises a slice is
+    # shown on every run by the positive example in the harness, rule `positive`)
+    rep.ok("str-slice", "untrusted str slicing", "sites-enumerated", f"{n_sites} byte-range slices of a str in the analysed crates and the harness")
 
 
 def rule_utf8(facts, rep):
